@@ -572,13 +572,20 @@ def wp (s : PSt) : List Slice := match s.work with | some (_, some p) => [p] | _
 /-- All headers reachable through delivered sequences. -/
 def dl (lh : List (List Slice)) (ds : List PDeliv) : List Slice := ds.flatMap fun d => hdrs lh d.l
 
-/-- The `[][]int` arrays in use, by owner: the running dispatch, the list pool, delivered sequences. -/
-def lowners (s : PSt) : List Nat := (wl s ++ s.lpool ++ s.delivered.map (·.l)).map (·.arr)
+/-- The headers a `Finish` in progress has yet to put. -/
+def fl (lh : List (List Slice)) (fs : List (Slice × Nat)) : List Slice :=
+  fs.flatMap fun f => (hdrs lh f.1).drop f.2
+
+/-- The `[][]int` arrays in use, by owner: the running dispatch, the list pool, delivered sequences,
+    `Finish` calls in progress. -/
+def lowners (s : PSt) : List Nat :=
+  (wl s ++ s.lpool ++ s.delivered.map (·.l) ++ s.fin.map (·.1)).map (·.arr)
 
 /-- The `[]int` arrays in use, by owner: `param`, the headers already in `csi.Parameters`, the
-    param pool, the headers of delivered sequences. -/
+    param pool, the headers of delivered sequences, the headers `Finish` calls in progress have
+    yet to put. -/
 def powners (s : PSt) : List Nat :=
-  (wp s ++ (wl s).flatMap (hdrs s.lheap) ++ s.ppool ++ dl s.lheap s.delivered).map (·.arr)
+  (wp s ++ (wl s).flatMap (hdrs s.lheap) ++ s.ppool ++ dl s.lheap s.delivered ++ fl s.lheap s.fin).map (·.arr)
 
 structure PInv (s : PSt) : Prop where
   lown : Owned s.lheap.length (lowners s)
@@ -587,7 +594,7 @@ structure PInv (s : PSt) : Prop where
   intact : ∀ d ∈ s.delivered, readParams s.pheap s.lheap d.l = d.snap
 
 theorem PInv_init : PInv PSt.init := by
-  refine ⟨?_, ?_, ?_, ?_⟩ <;> simp [PSt.init, Owned, lowners, powners, wl, wp, dl]
+  refine ⟨?_, ?_, ?_, ?_⟩ <;> simp [PSt.init, Owned, lowners, powners, wl, wp, dl, fl]
 
 /-! ### frame lemmas -/
 
@@ -624,6 +631,14 @@ theorem dl_congr (lh lh' : List (List Slice)) (ds : List PDeliv)
     simp only [dl, List.flatMap_cons] at ih ⊢
     rw [h d (List.mem_cons_self), ih (fun e he => h e (List.mem_cons_of_mem _ he))]
 
+theorem fl_congr (lh lh' : List (List Slice)) (fs : List (Slice × Nat))
+    (h : ∀ f ∈ fs, hdrs lh' f.1 = hdrs lh f.1) : fl lh' fs = fl lh fs := by
+  induction fs with
+  | nil => rfl
+  | cons f fs ih =>
+    simp only [fl, List.flatMap_cons] at ih ⊢
+    rw [h f (List.mem_cons_self), ih (fun e he => h e (List.mem_cons_of_mem _ he))]
+
 theorem readParams_congr (ph ph' : List (List Nat)) (lh lh' : List (List Slice)) (l : Slice)
     (h1 : hdrs lh' l = hdrs lh l) (h2 : ∀ h ∈ hdrs lh l, cells ph' h.arr = cells ph h.arr) :
     readParams ph' lh' l = readParams ph lh l := by
@@ -640,13 +655,13 @@ theorem PInv.del_lt {s : PSt} (hinv : PInv s) (d : PDeliv) (hd : d ∈ s.deliver
     d.l.arr < s.lheap.length := by
   apply hinv.lown.2
   simp only [lowners, List.map_append, List.mem_append, List.mem_map]
-  exact Or.inr ⟨d.l, ⟨d, hd, rfl⟩, rfl⟩
+  exact Or.inl (Or.inr ⟨d.l, ⟨d, hd, rfl⟩, rfl⟩)
 
 theorem PInv.del_hdr_lt {s : PSt} (hinv : PInv s) (d : PDeliv) (hd : d ∈ s.delivered) (h : Slice)
     (hh : h ∈ hdrs s.lheap d.l) : h.arr < s.pheap.length := by
   apply hinv.pown.2
   simp only [powners, List.map_append, List.mem_append, List.mem_map]
-  exact Or.inr ⟨h, mem_dl _ _ d hd h hh, rfl⟩
+  exact Or.inl (Or.inr ⟨h, mem_dl _ _ d hd h hh, rfl⟩)
 
 theorem PInv.del_ne_work {s : PSt} (hinv : PInv s) (l : Slice) (p : Option Slice)
     (hw : s.work = some (l, p)) (d : PDeliv) (hd : d ∈ s.delivered) : l.arr ≠ d.l.arr := by
@@ -654,7 +669,21 @@ theorem PInv.del_ne_work {s : PSt} (hinv : PInv s) (l : Slice) (p : Option Slice
   simp only [lowners, wl, hw, List.map_append, List.map_cons, List.cons_append,
     List.nil_append, List.nodup_cons, List.mem_append, List.mem_map, not_or] at h
   intro he
-  exact h.1.2 ⟨d.l, ⟨d, hd, rfl⟩, he.symm⟩
+  exact h.1.1.2 ⟨d.l, ⟨d, hd, rfl⟩, he.symm⟩
+
+theorem PInv.fin_lt {s : PSt} (hinv : PInv s) (f : Slice × Nat) (hf : f ∈ s.fin) :
+    f.1.arr < s.lheap.length := by
+  apply hinv.lown.2
+  simp only [lowners, List.map_append, List.mem_append, List.mem_map]
+  exact Or.inr ⟨f.1, ⟨f, hf, rfl⟩, rfl⟩
+
+theorem PInv.fin_ne_work {s : PSt} (hinv : PInv s) (l : Slice) (p : Option Slice)
+    (hw : s.work = some (l, p)) (f : Slice × Nat) (hf : f ∈ s.fin) : l.arr ≠ f.1.arr := by
+  have h := hinv.lown.1
+  simp only [lowners, wl, hw, List.map_append, List.map_cons, List.cons_append,
+    List.nil_append, List.nodup_cons, List.mem_append, List.mem_map, not_or] at h
+  intro he
+  exact h.1.2 ⟨f.1, ⟨f, hf, rfl⟩, he.symm⟩
 
 theorem PInv.del_hdr_ne_param {s : PSt} (hinv : PInv s) (l p : Slice)
     (hw : s.work = some (l, some p)) (d : PDeliv) (hd : d ∈ s.delivered) (h : Slice)
@@ -663,7 +692,7 @@ theorem PInv.del_hdr_ne_param {s : PSt} (hinv : PInv s) (l p : Slice)
   simp only [powners, wp, hw, List.map_append, List.map_cons, List.cons_append,
     List.nil_append, List.nodup_cons, List.mem_append, List.mem_map, not_or] at hn
   intro he
-  exact hn.1.2 ⟨h, mem_dl _ _ d hd h hh, he.symm⟩
+  exact hn.1.1.2 ⟨h, mem_dl _ _ d hd h hh, he.symm⟩
 
 /-! ### preservation, label by label -/
 
@@ -687,12 +716,14 @@ theorem pstep_begin_inv (s s' : PSt) (gl : Option Nat) (hinv : PInv s)
     · simp only [Option.some.injEq] at hstep; subst hstep
       have hfr : ∀ d ∈ s.delivered, hdrs (s.lheap ++ [List.replicate 4 default]) d.l = hdrs s.lheap d.l :=
         fun d hd => hdrs_alloc_lt _ _ _ (hinv.del_lt d hd)
+      have hfr2 : ∀ f ∈ s.fin, hdrs (s.lheap ++ [List.replicate 4 default]) f.1 = hdrs s.lheap f.1 :=
+        fun f hf => hdrs_alloc_lt _ _ _ (hinv.fin_lt f hf)
       refine ⟨?_, ?_, ?_, ?_⟩
       · have := hinv.lown.fresh
         simpa [lowners, wl, hw] using this
       · have := hinv.pown
         simp only [powners, wl, wp, hw] at this ⊢
-        rw [dl_congr _ _ _ hfr]
+        rw [dl_congr _ _ _ hfr, fl_congr _ _ _ hfr2]
         simpa [hdrs_len_zero] using this
       · intro l p hlp
         simp only [Option.some.injEq, Prod.mk.injEq] at hlp
@@ -710,7 +741,11 @@ theorem pstep_begin_inv (s s' : PSt) (gl : Option Nat) (hinv : PInv s)
           simp only [lowners, wl, hw, List.map_append, List.map_cons, List.nil_append,
             List.cons_append]
           simp only [List.map_cons] at hp
-          exact (List.Perm.append_right _ hp).symm
+          rw [List.perm_iff_count] at hp ⊢
+          intro a
+          have := hp a
+          simp only [List.count_append, List.count_cons] at this ⊢
+          omega
         · have := hinv.pown
           simp only [powners, wl, wp, hw] at this ⊢
           simpa [hdrs_len_zero] using this
@@ -814,13 +849,15 @@ theorem pstep_push_inv (s s' : PSt) (nc : Nat) (hinv : PInv s)
       simp only [Option.some.injEq] at hstep; subst hstep
       have hfr : ∀ d ∈ s.delivered, hdrs (write s.lheap l.arr l.len p) d.l = hdrs s.lheap d.l :=
         fun d hd => hdrs_write_ne _ _ _ _ _ (hinv.del_ne_work l _ hw d hd)
+      have hfr2 : ∀ f ∈ s.fin, hdrs (write s.lheap l.arr l.len p) f.1 = hdrs s.lheap f.1 :=
+        fun f hf => hdrs_write_ne _ _ _ _ _ (hinv.fin_ne_work l _ hw f hf)
       refine ⟨?_, ?_, ?_, ?_⟩
       · have := hinv.lown
         simpa [lowners, wl, hw, length_write] using this
       · refine hinv.pown.perm ?_
         simp only [powners, wl, wp, hw, List.flatMap_cons, List.flatMap_nil, List.append_nil,
           List.nil_append]
-        rw [dl_congr _ _ _ hfr, hdrs_write_push _ _ _ hlt hroom]
+        rw [dl_congr _ _ _ hfr, fl_congr _ _ _ hfr2, hdrs_write_push _ _ _ hlt hroom]
         simp only [List.map_append, List.map_cons, List.map_nil]
         rw [List.perm_iff_count]
         intro a
@@ -838,6 +875,9 @@ theorem pstep_push_inv (s s' : PSt) (nc : Nat) (hinv : PInv s)
         have hfr : ∀ d ∈ s.delivered,
             hdrs (s.lheap ++ [grow (cells s.lheap l.arr) l.len p nc]) d.l = hdrs s.lheap d.l :=
           fun d hd => hdrs_alloc_lt _ _ _ (hinv.del_lt d hd)
+        have hfr2 : ∀ f ∈ s.fin,
+            hdrs (s.lheap ++ [grow (cells s.lheap l.arr) l.len p nc]) f.1 = hdrs s.lheap f.1 :=
+          fun f hf => hdrs_alloc_lt _ _ _ (hinv.fin_lt f hf)
         have hc := hinv.wcap _ _ hw
         refine ⟨?_, ?_, ?_, ?_⟩
         · have h0 := hinv.lown
@@ -848,7 +888,7 @@ theorem pstep_push_inv (s s' : PSt) (nc : Nat) (hinv : PInv s)
         · refine hinv.pown.perm ?_
           simp only [powners, wl, wp, hw, List.flatMap_cons, List.flatMap_nil, List.append_nil,
             List.nil_append]
-          rw [dl_congr _ _ _ hfr, hdrs_grow_push _ _ _ _ hc]
+          rw [dl_congr _ _ _ hfr, fl_congr _ _ _ hfr2, hdrs_grow_push _ _ _ _ hc]
           simp only [List.map_append, List.map_cons, List.map_nil]
           rw [List.perm_iff_count]
           intro a
@@ -912,7 +952,7 @@ theorem pstep_finish_inv (s s' : PSt) (k : Nat) (hinv : PInv s)
       omega
     · refine hinv.pown.perm ?_
       have hp := (hperm.flatMap_right (fun d => hdrs s.lheap d.l)).map (·.arr)
-      simp only [powners, wl, wp, dl, List.map_append]
+      simp only [powners, wl, wp, dl, fl, List.map_append, List.flatMap_cons, List.drop_zero]
       simp only [List.flatMap_cons, List.map_append] at hp
       rw [List.perm_iff_count] at hp ⊢
       intro a
@@ -920,6 +960,61 @@ theorem pstep_finish_inv (s s' : PSt) (k : Nat) (hinv : PInv s)
       simp only [List.count_append] at this ⊢
       omega
 
+theorem pstep_finPut_inv (s s' : PSt) (j : Nat) (hinv : PInv s)
+    (hstep : pstep s (.finPut j) = some s') : PInv s' := by
+  simp only [pstep] at hstep
+  split at hstep
+  · cases hstep
+  · rename_i l i hf
+    have hperm := perm_cons_eraseIdx s.fin j (l, i) hf
+    split at hstep
+    · rename_i h hh
+      simp only [Option.some.injEq] at hstep; subst hstep
+      refine ⟨?_, ?_, hinv.wcap, hinv.intact⟩
+      · refine hinv.lown.perm ?_
+        have hp := (hperm.map (·.1)).map (·.arr)
+        simp only [lowners, wl, List.map_append, List.map_cons]
+        simp only [List.map_cons] at hp
+        rw [List.perm_iff_count] at hp ⊢
+        intro a
+        have := hp a
+        simp only [List.count_append, List.count_cons] at this ⊢
+        omega
+      · refine hinv.pown.perm ?_
+        have hp := (hperm.flatMap_right (fun f => (hdrs s.lheap f.1).drop f.2)).map (·.arr)
+        have hdrop : (hdrs s.lheap l).drop i = h :: (hdrs s.lheap l).drop (i + 1) := by
+          obtain ⟨hi, rfl⟩ := List.getElem?_eq_some_iff.1 hh
+          exact List.drop_eq_getElem_cons hi
+        simp only [powners, wl, wp, fl, List.map_append, List.flatMap_cons, List.map_cons]
+        simp only [List.flatMap_cons, List.map_append, hdrop, List.map_cons] at hp
+        rw [List.perm_iff_count] at hp ⊢
+        intro a
+        have := hp a
+        simp only [List.count_append, List.count_cons] at this ⊢
+        omega
+    · rename_i hh
+      simp only [Option.some.injEq] at hstep; subst hstep
+      refine ⟨?_, ?_, hinv.wcap, hinv.intact⟩
+      · refine hinv.lown.perm ?_
+        have hp := (hperm.map (·.1)).map (·.arr)
+        simp only [lowners, wl, List.map_append, List.map_cons]
+        simp only [List.map_cons] at hp
+        rw [List.perm_iff_count] at hp ⊢
+        intro a
+        have := hp a
+        simp only [List.count_append, List.count_cons] at this ⊢
+        omega
+      · refine hinv.pown.perm ?_
+        have hp := (hperm.flatMap_right (fun f => (hdrs s.lheap f.1).drop f.2)).map (·.arr)
+        have hdrop : (hdrs s.lheap l).drop i = [] :=
+          List.drop_eq_nil_of_le (List.getElem?_eq_none_iff.1 hh)
+        simp only [powners, wl, wp, fl, List.map_append]
+        simp only [List.flatMap_cons, hdrop, List.nil_append] at hp
+        rw [List.perm_iff_count] at hp ⊢
+        intro a
+        have := hp a
+        simp only [List.count_append] at this ⊢
+        omega
 theorem pstep_inv (s s' : PSt) (l : PLabel) (hinv : PInv s) (hstep : pstep s l = some s') : PInv s' := by
   cases l with
   | «begin» gl => exact pstep_begin_inv s s' gl hinv hstep
@@ -928,6 +1023,7 @@ theorem pstep_inv (s s' : PSt) (l : PLabel) (hinv : PInv s) (hstep : pstep s l =
   | push nc => exact pstep_push_inv s s' nc hinv hstep
   | emit => exact pstep_emit_inv s s' hinv hstep
   | finish k => exact pstep_finish_inv s s' k hinv hstep
+  | finPut j => exact pstep_finPut_inv s s' j hinv hstep
 
 theorem prun_inv (ls : List PLabel) (s s' : PSt) (hinv : PInv s) (h : prun s ls = some s') : PInv s' := by
   induction ls generalizing s with
